@@ -23,7 +23,8 @@ pub trait BuildSchema {
 	/// Build a [`SchemaMut`] for this type
 	fn schema_mut() -> SchemaMut {
 		let mut builder = SchemaBuilder::default();
-		Self::append_schema(&mut builder);
+		// Register the root type as well, so that a type that refers to itself does not get built twice
+		builder.find_or_build::<Self>();
 		SchemaMut::from_nodes(builder.nodes)
 	}
 
